@@ -80,7 +80,7 @@ for pid in sorted(P):
             "thorough_cmd": f"./check {pid} --tier thorough",
             "evidence_file": f"/verif/evidence/{pid}.json",
             "replay_cmd_template": f"./check {pid} --replay {{path}}",
-            "engine": "mon",
+            "engine": "simrpc" if pid == "C14" else "mon",
             "level_claimed": {"category": m["cat"], "text": m["text"], "design_ref": m["ref"]},
             "level_note": m["note"],
             "technique": m["technique"],
@@ -101,6 +101,8 @@ manifest = {
     "engines": [
         {"name": "mon", "path": "/verif/harness/mon", "serves_properties": sorted(built),
          "kind_free_text": "Rust monitor binary: reference-model oracles, history checkers and invariant probes run against the real datacake crates"},
+        {"name": "simrpc", "path": "/verif/harness-sim", "serves_properties": ["C14"],
+         "kind_free_text": "datacake-rpc built with its `simulation` feature inside turmoil; fault schedules + per-request history checker, simulations in child processes"},
     ],
     "checks": checks,
     "not_applicable": na,
